@@ -1,6 +1,7 @@
 package main
 
 import (
+	"context"
 	"go/types"
 	"encoding/json"
 	"flag"
@@ -385,8 +386,10 @@ func runProperty(p *vc.Prog, id string, claims *PropClaim, known []KnownFinding,
 				}
 			}
 			if status == "unsat" {
-				cmd := exec.Command(ep.Argv[0], ep.Argv[1:]...)
+				cctx, cancel := context.WithTimeout(context.Background(), 300*time.Second)
+				cmd := exec.CommandContext(cctx, ep.Argv[0], ep.Argv[1:]...)
 				ob, err := cmd.CombinedOutput()
+				cancel()
 				if err != nil || len(strings.TrimSpace(string(ob))) > 0 {
 					status, output = "failed", string(ob)
 					if err != nil {
